@@ -117,6 +117,15 @@ CHECKS = {
         "exhaustive": {"quick": False, "thorough": False},
         "trusted_base": ["reference token decision procedure in harness/chk-snap/src/c10.rs", "ed25519-dalek", "serde_json"],
     },
+    "C08": {
+        "engines": [
+            eng("native-release", "chk-snap", NATIVE_REL, params={"all": {"scale": 4}}),
+            eng("native-debugassert", "chk-snap", NATIVE_CHK, params={"all": {"scale": 1}}),
+            eng("asan", "chk-snap", ASAN, tiers=["quick", "thorough"], floor_scale=1.0),
+        ],
+        "exhaustive": {"quick": False, "thorough": False},
+        "trusted_base": ["positional header predicate in harness/chk-snap/src/c08.rs", "reference decoder/checksum in harness/refscion/src/wire.rs", "AddressSanitizer for the unchecked view accessors"],
+    },
 }
 
 LEVEL = {p: "exploration" for p in CHECKS}
